@@ -1,0 +1,9 @@
+//go:build !verif
+
+package kcp
+
+// Without the "verif" build tag the pool sanitizer call-outs are empty and
+// are inlined away.
+
+func verifPoolGet() []byte         { return nil }
+func verifPoolPut(buf []byte) bool { return false }
